@@ -44,9 +44,14 @@ fn sign(pki: &Pki, key: &str, data: &[u8]) -> Vec<u8> {
 }
 
 /// Identity EE certificate assembled by hand (RFC 5280 shape, as RFC 6492/8181 use it).
-pub fn id_ee_cert(pki: &Pki, subject_key: &str, sig_key: &str, issuer_name_key: &str, nb: Time, na: Time, is_ca: bool, aki: Option<&str>, serial: u64) -> Vec<u8> {
+pub fn id_ee_cert(pki: &Pki, subject_key: &str, sig_key: &str, issuer_name_key: &str, nb: Time, na: Time, basic: &str, aki: Option<&str>, serial: u64) -> Vec<u8> {
     let mut exts = Vec::new();
-    if is_ca { exts.push(ext(OID_CE_BC, true, der::seq(&[der::boolean(true)]))); }
+    // Basic Constraints: absent ("no"), present with cA left at its default FALSE ("ext_false", what several RIR encoders write), cA TRUE ("yes")
+    match basic {
+        "yes" => exts.push(ext(OID_CE_BC, true, der::seq(&[der::boolean(true)]))),
+        "ext_false" => exts.push(ext(OID_CE_BC, true, der::seq(&[]))),
+        _ => {}
+    }
     exts.push(ext(OID_CE_SKI, false, der::octets(&ski_of(pki, subject_key))));
     if let Some(a) = aki { exts.push(ext(OID_CE_AKI, false, der::seq(&[der::ctx(0, false, &ski_of(pki, a))]))); }
     let tbs = der::seq(&[
@@ -147,7 +152,7 @@ pub fn assemble(pki: &Pki, c: &Value) -> (Vec<u8>, String) {
     let (nb, na) = match g("eetime") { "expired" => (time_of(-3), time_of(0)), "notyet" => (time_of(2), time_of(4)), _ => (t0, t2) };
     let peer = "k0";
     let other = "k1";
-    let ee = id_ee_cert(pki, "e0", if g("eesig") == "peer" { peer } else { other }, peer, nb, na, g("eeca") == "yes",
+    let ee = id_ee_cert(pki, "e0", if g("eesig") == "peer" { peer } else { other }, peer, nb, na, g("eeca"),
                         match g("eeaki") { "peer" => Some(peer), "other" => Some(other), _ => None }, EE_SERIAL);
     let (this, next) = match g("crltime") { "stale" => (time_of(-3), time_of(0)), "future" => (time_of(2), time_of(4)), _ => (t0, t2) };
     let revoked: Vec<u64> = match g("revoked") {
@@ -190,7 +195,7 @@ pub fn replay(args: &[String]) {
             Ok((got, why)) => {
                 if got != want {
                     let devs: Vec<String> = c["f"].as_object().unwrap().iter().filter(|(k, v)| {
-                        let good: &[&str] = match k.as_str() { "eesig" | "crlsig" | "key" => &["peer"], "eeca" => &["no"], "eeaki" | "crlaki" => &["peer", "none"], "revoked" => &["none", "other"], _ => &["ok"] };
+                        let good: &[&str] = match k.as_str() { "eesig" | "crlsig" | "key" => &["peer"], "eeca" => &["no", "ext_false"], "eeaki" | "crlaki" => &["peer", "none"], "revoked" => &["none", "other"], _ => &["ok"] };
                         !good.contains(&v.as_str().unwrap())
                     }).map(|(k, v)| format!("{k}={}", v.as_str().unwrap())).collect();
                     if want {
@@ -253,7 +258,7 @@ pub fn drive(args: &[String]) {
     let vals: [(&str, &[&str]); 13] = [
         ("attrs", &["ok", "ok", "ok", "ok", "missing_ct", "missing_md", "missing_st", "dup_ct", "dup_md", "dup_st"]),
         ("digest", &["ok", "ok", "ok", "bad"]), ("sig", &["ok", "ok", "ok", "wrongkey", "bitflip"]), ("sid", &["ok", "ok", "ok", "bad"]),
-        ("eesig", &["peer", "peer", "peer", "other"]), ("eetime", &["ok", "ok", "ok", "expired", "notyet"]), ("eeca", &["no", "no", "no", "yes"]),
+        ("eesig", &["peer", "peer", "peer", "other"]), ("eetime", &["ok", "ok", "ok", "expired", "notyet"]), ("eeca", &["no", "ext_false", "no", "yes"]),
         ("eeaki", &["peer", "none", "peer", "other"]), ("crlsig", &["peer", "peer", "peer", "other"]), ("crltime", &["ok", "ok", "ok", "stale", "future"]),
         ("crlaki", &["peer", "none", "peer", "other"]), ("revoked", &["none", "other", "none", "other", "ee", "other_ee", "ee_other", "big_ee"]),
         ("key", &["peer", "peer", "peer", "other"]),
